@@ -418,6 +418,8 @@ def run(ctx):
                         "floating-point round-off; positivity of the common factor of find_omega_wedge's arctan2 arguments"]
     ctx.assumptions += ["numpy arctan2/arccos return the principal values: omega in [-pi, pi]",
                         "for a cos w + b sin w = c there are exactly two solutions on the circle when a^2+b^2 > c^2"]
+    from xfabsa import numeric as _N2
+    _N2.hazard_rule(ctx, 'C09')
     return ("For each of the four solvers in both modules the expressions returned for (omega, eta) are substituted into the "
             "module's own rotation-matrix builder (form_omega_mat_general, quart_to_omega, form_omega_mat; Ry(-wedge)Rz for "
             "the wedge solver) and the diffraction condition is verified as an identity of normal forms; the two-or-none "
